@@ -5,9 +5,9 @@ CFG = {
     "corr_files": ["Corr/C20.v"],
     "streams": [
         # schedules in which Stop and Resize calls do not overlap
-        S("C20", "drive_pool", 260, 6000, race=True),
+        S("C20", "drive_pool", 170, 6000, race=True),
         # schedules in which they do (the stream that catches a regression of the resizeMu fix)
-        S("C20ov", "drive_pool", 90, 2500, race=True),
+        S("C20ov", "drive_pool", 60, 2500, race=True),
     ],
     "rule": "a case = a random walk over the enabled labels of the transition system Model/PoolLTS.v (Go mirror in "
             "harness/cmd/drive_pool/lts.go): 1-4 workers, 1-8 tasks (Submit+receive, SubmitWait or ExecuteWithWorker per task), "
